@@ -94,6 +94,7 @@ type State struct {
 	bigv     map[int]*Node
 	randCnt  int
 	greads   map[string]bool // labels of package-level objects read after init
+	hexbuf   map[int][]Val   // byte buffers filled by hex.Encode: object -> the source bytes (same abstraction as hex.EncodeToString)
 	pools    map[int][]Val // sync.Pool contents (by pool object): a later Get in the same run hands back what was Put
 	mark     int
 	forced   int // forced choice for next choose() (-1 none)
@@ -147,6 +148,10 @@ func (s *State) clone() *State {
 	c.conc = map[int]int64{}
 	for k, v := range s.conc {
 		c.conc[k] = v
+	}
+	c.hexbuf = map[int][]Val{}
+	for k, v := range s.hexbuf {
+		c.hexbuf[k] = v
 	}
 	c.greads = map[string]bool{}
 	for k, v := range s.greads {
@@ -1404,6 +1409,11 @@ func (x *Exec) convert(st *State, f *Frame, in *ssa.Convert) Val {
 	case S:
 		// string <-> []byte: always a copy
 		_, toSlice := to.Underlying().(*types.Slice)
+		if src, ok := st.hexbuf[tv.obj]; ok && !toSlice && tv.off == 0 && tv.ln == 2*len(src) {
+			// string(buf) of a buffer filled by hex.Encode: the same opaque hex string hex.EncodeToString would have returned
+			o := x.newObj(st, "hexenc", "Fresh", "hexstring", append([]Val(nil), src...))
+			return S{obj: o.id, ln: len(src), cp: len(src), esz: 1, isStr: true}
+		}
 		slots := []Val{}
 		if tv.ln > 0 {
 			slots = append(slots, x.obj(st, tv.obj).slots[tv.off:tv.off+tv.ln]...)
